@@ -63,9 +63,9 @@ class Signal(object):
         return ValueError('Cannot directly modify values, use self.reset_values()')
 
     def reset_values(self, new_values):
-        self._values = new_values
-        self._npts = len(new_values)
         self.clear_cache()
+        self._values = np.array(new_values)
+        self._npts = len(new_values)
 
     @property
     def dt(self):
